@@ -120,8 +120,8 @@ PROPS = {
     assumptions=['ServeAgent as repaired for findings F2 (length guards) and F3 (recover around the forwarded standard request)'],
  ),
  'C13': dict(
-    group='serve', only=['rpc', 'slots'], ops=['rpc', 'slots', 'trunc'],
-    klass=lambda c: c['op'] + ':' + (c['args'][0] if c['op'] == 'rpc' else c['args'][2]) + ':' + ((c['model'] or ['?', '?'])[-1].split(' ')[0].split(':')[0])[:12],
+    group='serve', only=['rpc', 'slots'], ops=['rpc', 'slots', 'trunc', 'garb'],
+    klass=lambda c: c['op'] + ':' + (c['args'][0] if c['op'] in ('rpc', 'garb') else c['args'][2]) + ':' + ((c['model'] or ['?', '?'])[-1].split(' ')[0].split(':')[0])[:12],
     modules=['Ysshra.Props.C13', 'Ysshra.Bridge.Wire', 'Ysshra.Bridge.SnapYubi', 'Ysshra.Bridge.SnapParse'],
     theorem_files=['Props/C13.lean', 'Bridge/SnapYubi.lean', 'Bridge/SnapParse.lean'],
     anchors=['agent/yubiagent/'],
@@ -130,7 +130,9 @@ PROPS = {
     trivial=lambda c: False,
     rule='rpc: one client operation per case through NewClientFromConn <-> ServeAgent over a Unix socket pair against a recording scripted agent: add-hardware-certificate (valid / unparsable blobs, comments incl. failure texts), '
          'list-slots (well-formed, comma-containing and empty names x error texts), read/attest-slot (certificate, certificate+error, error, unknown), wait codes, raw forward of uninterpreted codes, '
-         'sign (0..64 KiB data, all flags, failing), add (comments, lifetime, confirm), remove, remove-all, list, lock/unlock (passphrases, failing). '
+         'sign (0..64 KiB data, all flags, failing), add (comments, lifetime, confirm), remove, remove-all, list, lock/unlock (passphrases, failing), '
+         'add / remove smartcard key (reader ids that script the agent\'s reply: success, failure, empty reply, lost connection, success with trailing bytes, other; PINs incl. empty and binary; lifetimes 0, below a second, fractional, 2^32-1 s; confirm). '
+         'garb: a peer that answers with a complete frame that is no response of the expected kind (empty, failure byte, lone success byte, overrunning string length, one string of two, near-miss status texts): every client operation must return an error. '
          'slots: (*server).ListSlots with a fake yubico-piv-tool first on PATH printing well-formed, short, truncated, CRLF, empty output or exiting non-zero; remote mode. Every case is non-trivial; distinct = distinct argument fields.'
          ' After the operation, follow-up raw requests of 13 sizes are sent on the same connection and the arguments the served agent retained are re-read (argument-changed-after-delivery). Raw-forward replies are scriptable (request code 0xFD): every status byte alone and with a body, empty, random.'
          ' Keys of every type: Ed25519, ECDSA P-256 / P-384, RSA-2048 and certificates over an Ed25519 and an RSA key.',
